@@ -37,7 +37,7 @@ def setup(common=None):
     names, grp, pv = tab["names"], tab["grp"], tab["pv"]
     primes = [2, 3, 5, 127]
     reg = UnitRegistry()
-    dims = {1: dimensions.length, 2: dimensions.time, 3: dimensions.angle, 0: dimensions.dimensionless}
+    dims = {1: dimensions.length, 2: dimensions.time, 3: dimensions.angle, 4: dimensions.energy, 0: dimensions.dimensionless}
     mscale = []
     for n, g, v in zip(names, grp, pv):
         s = Fraction(1)
@@ -319,7 +319,7 @@ def _run(case, run, variant):
                     pass
         first = None
         for label, r in results:
-            o, coherent = _project(r, model[si + 2], mag if st["op"] in ("sin", "cos", "tan", "add", "subtract", "dot") or st["meth"] in ("reduce", "accumulate") else 0.0)
+            o, coherent = _project(r, model[si + 2], mag if st["op"] in ("sin", "cos", "tan", "add", "subtract", "dot", "remainder", "fmod", "divmod_r") or st["meth"] in ("reduce", "accumulate") else 0.0)
             if first is None:
                 first = (r, o)
             events.append({"kind": "step", "op": st["op"], "meth": st["meth"], "form": form + label, "p": st["p"], "A": oa, "B": ob, "R": {"k": o["k"], "u": o["u"], "v": o["v"]}, "ucons": bool(coherent), "run": run, "variant": variant, "step": si})
